@@ -17,13 +17,19 @@ def load_known(prop):
     if not os.path.exists(p): return []
     return [k for k in json.load(open(p))['findings'] if k['property'] == prop]
 
-def match_known(known, kind, msg, entry):
-    """a finding entry matches on status=='known', kind, a substring of the failure location/message, and optionally the entry"""
+def match_known(known, kind, msg, entry, inputs=None):
+    """a finding entry matches on status=='known', kind, a substring of the failure location/message, optionally the harness
+    entry, and optionally exact values of named inputs (inputs: list of {'name','value'} of the counterexample)"""
     for k in known:
         if k.get('status') != 'known': continue
         if k.get('kind') and k['kind'] != kind: continue
         if k.get('where') and k['where'] not in msg: continue
         if k.get('entry') and k['entry'] != entry: continue
+        if k.get('inputs'):
+            if inputs is None: continue
+            have = {}
+            for i in inputs: have.setdefault(i['name'], i['value'])
+            if any(have.get(n) != (v & ((1 << 64) - 1) if v < 0 else v) and have.get(n) != (v & 0xffffffff) for n, v in k['inputs'].items()): continue
         return k['id']
     return None
 
@@ -31,7 +37,17 @@ def _run_job(job):
     try:
         known = job.get('known', [])
         def kfilter(b, st):
-            return match_known(known, b.kind, b.msg, job['entry'])
+            import z3
+            inputs = driver.model_inputs(st, b.model) if b.model is not None else None
+            kid = match_known(known, b.kind, b.msg, job['entry'], inputs)
+            if kid is None: return None
+            k = [x for x in known if x['id'] == kid][0]
+            if k.get('inputs'):
+                eqs = []
+                for kind_, name, bits, v in st.inputs:
+                    if name in k['inputs']: eqs.append(v == (k['inputs'][name] & ((1 << bits) - 1)))
+                return (kid, z3.Not(z3.And(*eqs))) if eqs else kid
+            return kid
         def inst(eng):
             eng.known_filter = kfilter if known else None
             eng._job = job
@@ -110,7 +126,7 @@ class Check:
             rep, desc = None, 'no native replay for this harness kind (%s)' % r.job.get('replay')
         meta['native'] = desc; meta['reproduced'] = rep
         json.dump(meta, open(path + '.json', 'w'), indent=1)
-        kid = match_known(s.known, b['kind'], b['msg'], r.entry)
+        kid = match_known(s.known, b['kind'], b['msg'], r.entry, b.get('inputs'))
         if rep:
             s.reproduced += 1
             if kid:
